@@ -97,32 +97,70 @@ Proof.
   destruct (is_nil (kid "Alias" rv)); cbn [qt_rel qt_cols tn_name]; split; auto.
 Qed.
 
-Lemma spec_from_fold (e : env) (g : nat) fi :
-  (forall n, kind_of n = "RangeVar" -> fi n = pdo cols <- pg_relation (env_cat e) [] n; POk [mkSI (visible_name n) cols]) ->
-  forall l acc, Forall (fun rv => kind_of rv = "RangeVar") l ->
-  fold_left (fun (acc : pgres (list scitem)) n => pdo a <- acc; pdo b <- fi n; POk (a ++ b)) l (POk acc)
-  = pdo r <- spec_scope (env_cat e) l; POk (acc ++ r).
+(** a from-item: a base table, or a JOIN tree over base tables; [d] bounds its depth *)
+Inductive join_tree : nat -> node -> list node -> Prop :=
+| JT_rv d n : kind_of n = "RangeVar" -> join_tree (S d) n [n]
+| JT_join d n l r : kind_of n = "JoinExpr" ->
+    join_tree d (kid "Larg" n) l -> join_tree d (kid "Rarg" n) r -> join_tree (S d) n (l ++ r).
+
+Lemma join_tree_leaves d n l : join_tree d n l -> Forall (fun rv => kind_of rv = "RangeVar") l.
 Proof.
-  intros Hfi. induction l as [|x l IH]; intros acc Hl; cbn [fold_left spec_scope pbind].
+  induction 1 as [d n Hk|d n l r Hk _ IHl _ IHr]; [repeat constructor; exact Hk|].
+  apply Forall_app. split; assumption.
+Qed.
+
+Lemma spec_scope_app c l r :
+  spec_scope c (l ++ r) = pdo a <- spec_scope c l; pdo b <- spec_scope c r; POk (a ++ b).
+Proof.
+  induction l as [|x l IH]; cbn [app spec_scope pbind].
+  - destruct (spec_scope c r); reflexivity.
+  - destruct (pg_relation c [] x) as [cols|e1]; cbn [pbind]; [|reflexivity].
+    rewrite IH. destruct (spec_scope c l) as [a|e2]; cbn [pbind]; [|reflexivity].
+    destruct (spec_scope c r) as [b|e3]; cbn [pbind]; reflexivity.
+Qed.
+
+(** the reference semantics' from_item (a local fixpoint of describe, here any
+    function with its unfolding equations) on a join tree *)
+Lemma from_item_tree (e : env) (FI : nat -> node -> pgres scope) :
+  (forall f n, kind_of n = "RangeVar" ->
+     FI (S f) n = pdo cols <- pg_relation (env_cat e) [] n; POk [mkSI (visible_name n) cols]) ->
+  (forall f n, kind_of n = "JoinExpr" ->
+     FI (S f) n = pdo l <- FI f (kid "Larg" n); pdo r <- FI f (kid "Rarg" n); POk (l ++ r)) ->
+  forall d n l, join_tree d n l -> FI d n = spec_scope (env_cat e) l.
+Proof.
+  intros Hrv Hj. induction 1 as [d n Hk|d n l r Hk _ IHl _ IHr].
+  - rewrite (Hrv d n Hk). cbn [spec_scope]. destruct (pg_relation (env_cat e) [] n); reflexivity.
+  - rewrite (Hj d n Hk), IHl, IHr, spec_scope_app. reflexivity.
+Qed.
+
+Lemma spec_from_fold (e : env) (fi : node -> pgres scope) (d : nat) :
+  (forall n l, join_tree d n l -> fi n = spec_scope (env_cat e) l) ->
+  forall fitems leavess acc, Forall2 (join_tree d) fitems leavess ->
+  fold_left (fun (acc : pgres (list scitem)) n => pdo a <- acc; pdo b <- fi n; POk (a ++ b)) fitems (POk acc)
+  = pdo r <- spec_scope (env_cat e) (List.concat leavess); POk (acc ++ r).
+Proof.
+  intros Hfi. induction fitems as [|x l IH]; intros leavess acc Hl; inversion Hl as [|? lv ? lvs Hx Hl']; subst;
+    cbn [fold_left List.concat spec_scope pbind].
   - rewrite app_nil_r. reflexivity.
-  - inversion Hl as [|? ? Hx Hl']; subst. rewrite (Hfi x Hx).
-    destruct (pg_relation (env_cat e) [] x) as [cols|e1]; cbn [pbind].
-    + rewrite IH by exact Hl'. destruct (spec_scope (env_cat e) l) as [r|e2]; cbn [pbind]; [|reflexivity].
+  - rewrite (Hfi x lv Hx), spec_scope_app.
+    destruct (spec_scope (env_cat e) lv) as [a|e1]; cbn [pbind].
+    + rewrite (IH lvs (acc ++ a) Hl'). destruct (spec_scope (env_cat e) (List.concat lvs)) as [r|e2]; cbn [pbind]; [|reflexivity].
       rewrite <- app_assoc. reflexivity.
     + clear. induction l as [|y l IHl]; cbn [fold_left pbind]; [reflexivity|exact IHl].
 Qed.
 
-
 Section SimpleSelect.
-  Variables (e : env) (strict deep : bool) (stmt : node) (targets rvs : list node).
+  Variables (e : env) (strict deep : bool) (stmt : node) (targets rvs fitems : list node) (leavess : list (list node)) (f : nat).
   Hypothesis Hkind : kind_of stmt = "SelectStmt".
   Hypothesis Hwith : kid "WithClause" stmt = Nil.
   Hypothesis Htl : kid "TargetList" stmt = NList targets.
   Hypothesis Hne : targets <> [].
-  Hypothesis Hfrom : kid "FromClause" stmt = NList rvs.
+  Hypothesis Hfrom : kid "FromClause" stmt = NList fitems.
+  (* every from-item is a base table or a JOIN tree over base tables (of depth at most the fuel) *)
+  Hypothesis Htrees : Forall2 (join_tree (S f)) fitems leavess.
+  Hypothesis Hrvs : rvs = List.concat leavess.
   (* what the walker finds in the from-list: the base tables themselves *)
   Hypothesis Hwalk : from_items (kid "FromClause" stmt) = rvs.
-  Hypothesis Hrv : Forall (fun rv => kind_of rv = "RangeVar") rvs.
   (* no column references or sub-selects outside the result list *)
   Let others := [kid "FromClause" stmt; kid "WhereClause" stmt; kid "GroupClause" stmt; kid "HavingClause" stmt; kid "SortClause" stmt].
   (* strict: no column reference outside the result list; otherwise: none that is paired with a parameter *)
@@ -134,13 +172,20 @@ Section SimpleSelect.
   Hypothesis Hshape : forall sc, spec_scope (env_cat e) rvs = POk sc ->
     Forall (fun it => NoDup (map sc_name (si_cols it))) sc /\ Forall (target_ok sc) targets.
 
-  Theorem simple_select_refines_t f g :
+  Lemma Hrv : Forall (fun rv => kind_of rv = "RangeVar") rvs.
+  Proof.
+    rewrite Hrvs. pose proof Htrees as Ht. clear -Ht. induction Ht as [|n l ns ls Hn Hns IH]; cbn [List.concat]; [constructor|].
+    apply Forall_app. split; [eapply join_tree_leaves; exact Hn|exact IH].
+  Qed.
+
+  Theorem simple_select_refines_t g :
     match describe (env_cat e) strict deep (S (S f)) [] [] stmt, output_columns (S g) e [] stmt with
     | POk row, Ok cols => Forall2 row_rel row cols
     | PErr _, Err _ => True
     | _, _ => False
     end.
   Proof.
+    pose proof Hrv as Hrv'.
     remember (S f) as g1 eqn:Eg1.
     cbn [describe]. rewrite Hwith. cbn [kid_items kid items fold_left pbind].
     rewrite Hkind. unfold kid_items at 1. rewrite Htl. cbn [items].
@@ -149,14 +194,18 @@ Section SimpleSelect.
     replace (Nat.eqb (List.length targets) 0) with false by (rewrite Et; reflexivity).
     cbn [andb]. cbv iota.
     (* the scope of the reference semantics *)
-    match goal with |- context [fold_left (fun acc n => pdo a <- acc; pdo b <- ?F g1 n; POk (a ++ b)) _ _] => set (fi := F g1) end.
-    assert (Hfi : forall n, kind_of n = "RangeVar" -> fi n = pdo cols <- pg_relation (env_cat e) [] n; POk [mkSI (visible_name n) cols]).
-    { intros n Hn. unfold fi. rewrite Eg1. rewrite Hn. reflexivity. }
+    match goal with |- context [fold_left (fun acc n => pdo a <- acc; pdo b <- ?F g1 n; POk (a ++ b)) _ _] => set (FI := F) end.
+    assert (Hfi : forall n l, join_tree g1 n l -> FI g1 n = spec_scope (env_cat e) l).
+    { apply (from_item_tree e FI).
+      - intros f0 n Hn. unfold FI. rewrite Hn. reflexivity.
+      - intros f0 n Hn. unfold FI. rewrite Hn. reflexivity. }
     unfold kid_items at 1. unfold others in Hothers, Hsub. rewrite Hfrom in Hothers, Hsub |- *. cbn [items].
-    match goal with |- context [fold_left ?F rvs ?A] =>
-      replace (fold_left F rvs A) with (pdo r <- spec_scope (env_cat e) rvs; POk ([] ++ r))
-        by (symmetry; exact (spec_from_fold e g1 fi Hfi rvs [] Hrv)) end.
-    cbn [app].
+    pose proof (spec_from_fold e (FI g1) g1 Hfi fitems leavess []) as Hfold.
+    specialize (Hfold Htrees).
+    match goal with |- context [fold_left ?F fitems ?A] =>
+      replace (fold_left F fitems A) with (pdo r <- spec_scope (env_cat e) (List.concat leavess); POk ([] ++ r))
+        by (symmetry; exact Hfold) end.
+    cbn [app]. rewrite <- Hrvs.
     (* sqlc's side *)
     rewrite output_columns_unfold.
     assert (Hsrc : source_tables g e [] stmt = model_scope e rvs).
@@ -164,9 +213,9 @@ Section SimpleSelect.
       replace (String.eqb "SelectStmt" "DeleteStmt") with false by reflexivity.
       replace (String.eqb "SelectStmt" "InsertStmt") with false by reflexivity.
       replace (String.eqb "SelectStmt" "SelectStmt") with true by reflexivity.
-      cbn [orb bind]. rewrite Hwalk. clear -Hrv.
+      cbn [orb bind]. rewrite Hwalk. clear -Hrv'.
       match goal with |- ?L rvs = _ => set (loop := L) end.
-      induction Hrv as [|x l Hx Hl IH]; [reflexivity|].
+      induction Hrv' as [|x l Hx Hl IH]; [reflexivity|].
       unfold loop. cbn [model_scope]. fold loop. unfold is_kind. rewrite Hx.
       replace (String.eqb "RangeVar" "RangeSubselect") with false by reflexivity.
       replace (String.eqb "RangeVar" "RangeVar") with true by reflexivity.
@@ -202,24 +251,24 @@ Section SimpleSelect.
   Qed.
 
   (** arity *)
-  Theorem simple_select_arity f g :
+  Theorem simple_select_arity g :
     match describe (env_cat e) strict deep (S (S f)) [] [] stmt, output_columns (S g) e [] stmt with
     | POk row, Ok cols => List.length row = List.length cols
     | PErr _, Err _ => True
     | _, _ => False
     end.
   Proof.
-    pose proof (simple_select_refines_t f g) as H.
+    pose proof (simple_select_refines_t g) as H.
     destruct (describe (env_cat e) strict deep (S (S f)) [] [] stmt); destruct (output_columns (S g) e [] stmt); auto.
     clear -H. induction H; simpl; congruence.
   Qed.
 
   (** acceptance only (C10) *)
-  Theorem simple_select_decision f g :
+  Theorem simple_select_decision g :
     (exists row, describe (env_cat e) strict deep (S (S f)) [] [] stmt = POk row)
     <-> (exists cols, output_columns (S g) e [] stmt = Ok cols).
   Proof.
-    pose proof (simple_select_refines_t f g) as H.
+    pose proof (simple_select_refines_t g) as H.
     destruct (describe (env_cat e) strict deep (S (S f)) [] [] stmt) as [row|e1]; destruct (output_columns (S g) e [] stmt) as [cols|m|m];
       try contradiction; split; intros [x Hx]; try discriminate; eauto.
   Qed.
